@@ -139,6 +139,31 @@ theorem expired_entry_not_used (c : Store) (now : Int) (k : Str) (h : ∀ e ∈ 
     obtain ⟨e, he, hk, _, hexp⟩ := hit_some hh
     exact absurd hexp (Int.not_lt.mpr (h e he hk))
 
+/-- **hit_does_not_extend_life.**  "Reused only until it expires", at full strength:
+(1) a cached verification leaves every entry it HITS exactly as it is — only queries that miss store
+anything — so a hit never renews an expiry;
+(2) after any history from the empty store every entry was stored at one of the history's instants
+`t` (by `failures_not_cached`: after a miss accepted by the verifier) and expires at `t + ttl`;
+(3) hence whenever an entry is used at `now`, some step at an instant `t` with `now < t + ttl` stored
+it: an entry stored at `t₀` is never used at any `now ≥ t₀ + ttl`, whatever hits happened in between,
+unless it was stored again after a miss. -/
+theorem hit_does_not_extend_life (P : Params) (pl : Bytes) (hdrs : List Str) (hist : List (Int × Op)) :
+    (∀ (c : Store) (now : Int) (b : Bundle) (k : Str) (cs : CS), c.hit now k = some cs →
+      (verifyCached P.order P.V c now P.ttl b).2.get k = c.get k) ∧
+    (∀ e ∈ (runSys P hist (init pl hdrs)).store, ∃ t op, (t, op) ∈ hist ∧ e.expiry = t + P.ttl) ∧
+    (∀ now k cs, (runSys P hist (init pl hdrs)).store.hit now k = some cs →
+      ∃ t op, (t, op) ∈ hist ∧ now < t + P.ttl) := by
+  have h2 : ∀ e ∈ (runSys P hist (init pl hdrs)).store, ∃ t op, (t, op) ∈ hist ∧ e.expiry = t + P.ttl := by
+    intro e he
+    rcases store_run P hist _ e he with h | h
+    · cases h
+    · exact h
+  refine ⟨fun c now b k cs h => hit_leaves_entry P.order P.V c now P.ttl b k cs h, h2, ?_⟩
+  intro now k cs hh
+  obtain ⟨e, he, _, _, hexp⟩ := hit_some hh
+  obtain ⟨t, op, hm, ht⟩ := h2 e he
+  exact ⟨t, op, hm, ht ▸ hexp⟩
+
 /-- **failures_not_cached.**  Whatever a verification adds to the store is an acceptance by the
 underlying verifier of a query of this very call, stored under that query's key, expiring `ttl`
 later; a rejection stores nothing -/
@@ -261,6 +286,7 @@ end Macaroon.Props.C14
 #print axioms Macaroon.Props.C14.mint_synced_is_codec_roundtrip
 #print axioms Macaroon.Props.C14.hit_conditions
 #print axioms Macaroon.Props.C14.expired_entry_not_used
+#print axioms Macaroon.Props.C14.hit_does_not_extend_life
 #print axioms Macaroon.Props.C14.failures_not_cached
 #print axioms Macaroon.Props.C14.cached_acceptance_is_real
 #print axioms Macaroon.Props.C14.bundles_isolated
